@@ -90,8 +90,11 @@ func checkC15(c *core.Ctx) error {
 	if err := c.Load(packages.LoadSyntax); err != nil {
 		return err
 	}
+	c.Explanation = "Structural rules (R1 twin kernels of the float64 and generic recursions, R2 interior/final transition matrix discipline, R3 predecessor sets of the restricted recursion) and enumeration rules decided by abstract interpretation: (R4) LogPdf, forward-backward (generic and float64), PosteriorMarginals, Posterior of state-set sequences and the mixture densities are interpreted on models with symbolic parameters (m = 2..3 states, n = 1..4 positions) and compared, as normal forms, with the explicit sum over all hidden paths; (R5) on every branch of the Viterbi dynamic programme the decided comparisons, read as order facts between complete hidden paths, place the returned path above every other path."
 	c.Rule("C15.R1", "the float64-specialised forward/backward recursions have the same normalised kernel as the generic ones", 3)
 	checkTwinPairs(c, "C15.R1", c15Pairs)
+	checkHmmEnumeration(c)
+	checkViterbi(c)
 	c.Rule("C15.R2", "every recursion over a sequence uses the interior transition matrix Tr only inside its loop over interior positions and the final-step matrix Tf only outside it (sibling agreement of forward, backward, their float64 copies, Viterbi and the posterior recursions)", 7)
 	pkg := c.Pkg("statistics/generic")
 	if pkg == nil {
